@@ -424,7 +424,7 @@ func c03Reject(t *fw.T) {
 			mutant = bad + ";\n" + src
 		}
 	default: // one lexical name declared twice in a scope
-		dup := gen.Pick(r, []string{"let zz1; let zz1;", "const zz1=1; let zz1;", "let zz1; class zz1{}", "class zz1{} const zz1=2;", "let zz1=1, zz1=2;", "let zz1; var zz1;", "let [zz1,zz1]=q;", "let zz1; function zz1(){}"})
+		dup := gen.Pick(r, []string{"let zz1; let zz1;", "const zz1=1; let zz1;", "let zz1; class zz1{}", "class zz1{} const zz1=2;", "let zz1=1, zz1=2;", "let zz1; var zz1;", "let [zz1,zz1]=q;", "let zz1; function zz1(){}", "var zz1; let zz1;", "function zz1(){} let zz1;", "{var zz1} let zz1;", "{{var zz1}} const zz1=1;", "var zz1; class zz1{}", "switch(q){case 1:let zz1;break;case 2:let zz1}", "switch(q){case 1:const zz1=0;default:class zz1{}}", "switch(q){default:let zz1;case 3:{}let zz1}"})
 		frame := gen.Pick(r, []string{"%s", "{%s}", "function zf(){%s}", "x=()=>{%s}", "for(;;){%s}", "if(a){%s}", "class ZC{m(){%s}}", "try{}catch(e){%s}", "switch(a){case 1:%s}", "function zg(zz1){let zz1}%.0s", "try{}catch(zz1){let zz1}%.0s", "class ZD{static{%s}}"})
 		bad := fmt.Sprintf(frame, dup)
 		kind = "duplicate " + bad
@@ -476,6 +476,9 @@ var c03Probes = []struct {
 	{"asi-after-async-arrow-and-yield", "let u=async(a)=>{}\n/r/;function*g(){x=yield\n(1)}", "let u=async(a)=>{};/r/;function*g(){x=yield;(1)}"},
 	{"no-asi-when-the-line-continues", "x=()=>{}\n,y=2;z=()=>a\n(1);f=function(){}\n(2)", "x=()=>{},y=2;z=()=>a(1);f=function(){}(2)"},
 	{"in-inside-computed-key-of-for-init", "for(x={[a in b]:1};;);for(y=class{[c in d](){}};;);", "for(x={[(a in b)]:1};;);for(y=class{[(c in d)](){}};;);"},
+	{"yield-before-template-end", "function*g(){x=`${yield}`;y=`a${yield}b${yield}c`}", "function*g(){x=`${(yield)}`;y=`a${(yield)}b${(yield)}c`}"},
+	{"prefix-update-as-base-of-exp", "++a**b;x=--c**2**d", "(++a)**b;x=((--c)**(2**d))"},
+	{"async-as-label", "async:while(1)break async;of:{break of}", "async:while(1)break async\nof:{break of;}"},
 	{"for-init-async-function-with-in", "for(async function(){a in b};;);", "for((async function(){(a in b);});;);"},
 }
 
@@ -493,6 +496,8 @@ func init() {
 	rep("flat-2000-arrow-and-object-statements", "x=(a,b)=>({k:[a,b]});", 2000)
 	rep("flat-2000-class-expressions", "x=class{m(){}static{}#p=1};", 2000)
 	rep("flat-2000-loops-and-try", "for(;;){break}while(a){}do{}while(a);try{}catch{}finally{}", 2000)
+	rep("flat-1500-async-expressions", "x=async()=>1;y=async function(){};z=[async,async a=>a];", 1500)
+	rep("flat-1500-mixed-operators", "x=a?.b||d&&e|f^g&h==i<j<<k+l*m**-n;y=(p??q)?r:s;", 1500)
 	rep("flat-2000-templates-and-calls", "f(`a${b}c`,new g(1)?.h[2]);", 2000)
 	c03Probes = append(c03Probes, struct{ name, a, b string }{"flat-3000-array-elements", "x=[" + strings.Repeat("(a),", 3000) + "]", "x=[" + strings.Repeat("a,", 3000) + "]"})
 	c03Probes = append(c03Probes, struct{ name, a, b string }{"flat-3000-arguments", "f(" + strings.Repeat("(a),", 2999) + "a)", "f(" + strings.Repeat("a,", 2999) + "a)"})
